@@ -40,7 +40,7 @@ func init() {
 		Builds:   []string{"default", "386"}, // the 386 build runs a quarter of the random classes on a 32-bit target
 		Parallel: 4,                          // cases are judged on 4 goroutines per shard: the library functions are stateless, shared state inside them shows up as wrong verdicts
 		Rule: "exhaustive: every byte through Encode/EncodeToTrytes/Decode/DecodeTrytes of b1t6 and Encode/Decode of b1t8; every one of the 3^6 b1t6 groups as trits (Decode) and as a tryte pair (DecodeTrytes), every one of the 3^8 b1t8 groups. " +
-			"sequences: for every group count 0..64, every position of an invalid group (and none), every remainder length (b1t6: 0..5 trits with 0/1-only and arbitrary contents; trytes: 0 or 1 extra tryte; b1t8: 0..7 trits with and without a -1 in the remainder), random contents, optionally further invalid groups behind the first; random byte strings of length 0..64 (some up to 2000) through encode and decode. " +
+			"sequences: long sequences of 255..5000 groups with the first invalid group at 1, the middle, around 256/1024/2048 and at the end; for every group count 0..64, every position of an invalid group (and none), every remainder length (b1t6: 0..5 trits with 0/1-only and arbitrary contents; trytes: 0 or 1 extra tryte; b1t8: 0..7 trits with and without a -1 in the remainder), random contents, optionally further invalid groups behind the first; random byte strings of length 0..64 (some up to 2000) through encode and decode. " +
 			"Verdict, sentinel (errors.Is), returned byte count and the bytes written before the fault are compared with the model; accepted inputs are re-encoded and must reproduce the input. Only trits in {-1,0,1} and trytes in [9A-Z] are generated. " +
 			"Non-trivial: distinct inputs that contain an invalid group or have a remainder.",
 		Assumptions: []string{"the table-driven TIP-5 model in harness/oracle/tern (self-tested against a brute-force enumeration of all groups and the TIP-5 examples)", "errors.Is of the Go standard library"},
@@ -128,7 +128,15 @@ type seqSpec struct {
 	ng, bad, more, rem, remflg int
 }
 
+// longSeqKey is seqKey for sequences of up to 65535 groups.
+func longSeqKey(seed int64, ng, bad, more, rem, remflag int) []byte {
+	return append(fw.U64(uint64(seed)), byte(ng), byte(ng>>8), byte(bad), byte(bad>>8), byte(more), byte(rem), byte(remflag))
+}
+
 func parseSeq(key []byte) seqSpec {
+	if len(key) == 15 {
+		return seqSpec{seed: int64(fw.GetU64(key)), ng: int(key[8]) | int(key[9])<<8, bad: int(key[10]) | int(key[11])<<8, more: int(key[12]), rem: int(key[13]), remflg: int(key[14])}
+	}
 	if len(key) != 13 {
 		panic("c14: bad sequence key")
 	}
@@ -723,6 +731,23 @@ func gen(g *fw.Gen) {
 						}
 					}
 				}
+			}
+		}
+	}
+	// long sequences (beyond any plausible internal block size) with the first invalid group late
+	for rep := 0; rep < g.Pick(1, 30); rep++ {
+		for _, ng := range []int{255, 256, 257, 511, 513, 1023, 1024, 1025, 1026, 1500, 2047, 2048, 2049, 3000, 4095, 4097, 5000} {
+			for _, bad := range []int{0, 1, ng / 2, 256, 257, 1024, 1025, 1026, 2048, 2049, ng - 1, ng} {
+				if bad > ng {
+					continue
+				}
+				if !own() {
+					continue
+				}
+				rem := g.Rng.Intn(8)
+				g.Emit(clB8Seq, longSeqKey(g.Rng.Int63(), ng, bad, g.Rng.Intn(2), rem, g.Rng.Intn(2)))
+				g.Emit(clB6Seq, longSeqKey(g.Rng.Int63(), ng, bad, g.Rng.Intn(2), rem%6, g.Rng.Intn(2)))
+				g.Emit(clB6TSeq, longSeqKey(g.Rng.Int63(), ng, bad, g.Rng.Intn(2), rem%2, 0))
 			}
 		}
 	}
